@@ -1598,6 +1598,15 @@ impl Tree {
 		let checkpoint = DatabaseCheckpoint::new(Arc::clone(&self.core.inner));
 		let metadata = checkpoint.restore_from_checkpoint(checkpoint_dir)?;
 
+		// The version index file was replaced: re-open the B+tree on the restored file
+		// (the old handle and its node cache belong to the discarded timeline).
+		if let Some(ref versioned_index) = self.core.inner.versioned_index {
+			let path = self.core.inner.opts.versioned_index_dir().join("index.bpt");
+			let comparator =
+				Arc::new(TimestampComparator::new(Arc::new(BytewiseComparator::default())));
+			*versioned_index.write() = DiskBPlusTree::disk(&path, comparator)?;
+		}
+
 		// The value log's files were replaced too: drop its writer and read handles and
 		// pick up the restored files.
 		if let Some(ref vlog) = self.core.inner.vlog {
